@@ -31,6 +31,10 @@ pub fn catalog_of(kind: u8) -> Vec<ObjSpec> {
         v[1].carousel = Some(Carousel::Delay(1000));
         v[2].start_ms = Some(1000);
     }
+    if kind == 3 {
+        // other add order (the search adds objects in catalogue order): low priority first
+        v.swap(0, 1);
+    }
     if kind == 2 {
         // degenerate and extreme transfer counts: 0 (flute sends such an object once) and a large one
         v[0].count = 0;
@@ -257,6 +261,9 @@ pub fn configs() -> Vec<Cfg> {
                     if fdt_e == 512 {
                         v.push(Cfg { full_fdt, multiplex, queues, fdt_e, catalog_kind: 1 });
                         v.push(Cfg { full_fdt, multiplex, queues, fdt_e, catalog_kind: 2 });
+                        if queues == 2 {
+                            v.push(Cfg { full_fdt, multiplex, queues, fdt_e, catalog_kind: 3 });
+                        }
                     }
                 }
             }
